@@ -23,3 +23,27 @@ Example C07_nonvacuous :
       mkCol "user_id" (TSimple Integer) false None None None (Some (SStr "k")) (Some (SBool true)) (Some (FKStr "user.id"))]
      []) = Ok n /\ List.length (t_constraints n) = 4%nat.
 Proof. eexists. split; vm_compute; reflexivity. Qed.
+
+(* a schema diffed against itself yields the empty plan (no hypothesis on names: duplicates allowed) *)
+From VV.M1 Require Import Diff DiffP.
+
+Theorem C07_diff_self_empty : forall S, (forall t, In t S -> exists n, normalize t = Ok n) ->
+  diff_actions S S = Ok [].
+Proof. exact diff_self_empty. Qed.
+Print Assumptions C07_diff_self_empty.
+Check C07_diff_self_empty : forall S, (forall t, In t S -> exists n, normalize t = Ok n) ->
+  diff_actions S S = Ok [].
+
+(* non-vacuity: the hypothesis holds for a two-table schema with inline pk / unique / index / fk *)
+Example C07_diff_self_nonvacuous :
+  let S := [mkTable "user" None
+              [mkCol "id" (TSimple Integer) false None None (Some (PKBool true)) None None None] [];
+            mkTable "post" None
+              [mkCol "id" (TSimple Integer) false None None (Some (PKBool true)) None None None;
+               mkCol "user_id" (TSimple Integer) false None None None (Some (SStr "k")) (Some (SBool true))
+                     (Some (FKStr "user.id"))] []] in
+  (forall t, In t S -> exists n, normalize t = Ok n) /\ diff_actions S S = Ok [].
+Proof.
+  cbv zeta. split; [|vm_compute; reflexivity].
+  intros t [<-|[<-|[]]]; eexists; vm_compute; reflexivity.
+Qed.
